@@ -6,5 +6,6 @@ import MidoProofs.TableTie
 #print axioms Mido.C17_uses_charset
 #print axioms Mido.C17_inner_charset
 #print axioms Mido.C17_utf8_roundtrip
+#print axioms Mido.C17_utf8_canonical
 #print axioms Mido.C17_latin_roundtrip
 #print axioms Mido.tie_default_charset
